@@ -28,6 +28,28 @@ package parser
 //@ func (*Parser).advance
 //@   inherit
 //@   ensures recv.currentPos == old(recv.currentPos) + 1
+//@   ensures @C20 cost() <= 0
+
+//@ func (*Parser).isType
+//@   inherit
+//@   ensures @C20 cost() <= 0
+
+// The type-parameter loop of CAST and the mode-word loop of MATCH ... AGAINST: what a pass through the loop costs, over
+// and above the expressions parsed before it, is linear in the tokens consumed and the text appended.
+//@ func (*Parser).parseCastExpression
+//@   inherit
+//@   loop 1 invariant @C20 cost() - pre(cost()) <= 8*(p.currentPos - pre(p.currentPos)) + 2*(len(typeParams.buf) - pre(len(typeParams.buf))) + 8
+//@ func (*Parser).parseMatchAgainst
+//@   inherit
+//@   loop 1 invariant @C20 cost() - pre(cost()) <= 8*(p.currentPos - pre(p.currentPos)) + 2*(len(modeWords.buf) - pre(len(modeWords.buf))) + 8
+
+// Cost (abstract steps, /verif/DESIGN.md 4.20) of the functions that assemble a text from a run of tokens: linear in the
+// number of tokens consumed and in the length of the text produced (appending to a string in the loop would copy the
+// text so far for every token).
+//@ func (*Parser).parseQualifiedName
+//@   inherit
+//@   ensures @C20 implies(succeeded(), cost() <= 8*(recv.currentPos - old(recv.currentPos)) + 2*len(result0) + 16)
+//@   loop 1 invariant @C20 cost() <= 8*(p.currentPos - old(p.currentPos)) + 2*len(name.buf) + 8
 
 //@ func (*Parser).expectedError
 //@   inherit
